@@ -159,7 +159,7 @@ PROPS['C12'] = dict(
         K('poulpy-cpu-ref', 'hal_defaults::scratch::verif_kani', ['c12_take_slice_aligned_contract', 'c12_take_slice_aligned_panics_iff_too_small',
           'c12_take_slice_default_u8', 'c12_take_slice_default_i64', 'c12_take_slice_default_f64', 'c12_take_slice_default_i128'], cls='complete', timeout=600,
           functions=['hal_defaults::scratch::take_slice_aligned', 'HalScratchDefaults::take_slice_default', 'HalScratchDefaults::scratch_available_default', 'HalScratchDefaults::scratch_from_bytes_default']),
-        V('vec_znx_ring'), V('vec_znx_normalize'), V('hal_glue'), V('hal_delegates'), V('vmp_fft64'), V('vmp_ntt120'), V('glwe_ops'), V('core_keyswitch'), V('core_extprod'), V('core_mul'), V('core_lwe_ksk'), V('core_relin'), V('core_trace'), V('core_lwe_to_glwe'), V('core_ggsw_expand'), V('bdd_blind_rotation'), V('core_encrypt_pk'), V('core_lwe_encrypt'), V('bdd_cmux'), V('core_decrypt'),
+        V('vec_znx_ring'), V('vec_znx_normalize'), V('hal_glue'), V('hal_delegates'), V('vmp_fft64'), V('vmp_ntt120'), V('glwe_ops'), V('core_keyswitch'), V('core_extprod'), V('core_mul'), V('core_lwe_ksk'), V('core_relin'), V('core_trace'), V('core_lwe_to_glwe'), V('core_packing', lemmas=['lemma_merge_both', 'lemma_merge_lo', 'lemma_merge_hi']), V('core_ggsw_expand'), V('bdd_blind_rotation'), V('core_encrypt_pk'), V('core_lwe_encrypt'), V('bdd_cmux'), V('core_decrypt'),
         K('poulpy-cpu-ref', 'verif_kani::c12_window', [f'c12_window_{op}__n4' for op in ('normalize_assign', 'rotate_assign', 'automorphism_assign', 'mul_xp_minus_one_assign', 'lsh_assign', 'rsh_assign')],
           cls='bounded', timeout=1200, bound='N=4 (limb byte size 32: not a multiple of the 64-byte alignment), size 2',
           functions=['HAL traits VecZnx{Normalize,Rotate,Automorphism,MulXpMinusOne,Lsh,Rsh}Assign with a scratch of exactly the companion *_tmp_bytes; two runs with different scratch contents']),
@@ -235,9 +235,9 @@ PROPS['C18'] = dict(
         K('poulpy-cpu-ref', 'verif_kani::c18_wrappers', ['c18_glwe_read_truncated', 'c18_lwe_read_truncated', 'c18_glwe_compressed_read_truncated'], cls='complete', timeout=900,
           functions=['<GLWE as ReaderFrom>::read_from', '<LWE as ReaderFrom>::read_from', '<GLWECompressed as ReaderFrom>::read_from (every truncation point of a valid stream: Err leaves metadata unchanged)']),
         K('poulpy-cpu-ref', 'verif_kani::c18_compound', ['c18_gglwe_read_truncated', 'c18_ggsw_read_truncated', 'c18_switching_key_read_truncated', 'c18_automorphism_key_read_truncated',
-          'c18_public_key_read_truncated', 'c18_gglwe_compressed_seed_count_rejected'], cls='complete', timeout=900,
+          'c18_public_key_read_truncated', 'c18_gglwe_compressed_seed_count_rejected', 'c18_automorphism_key_round_trip_p', 'c18_automorphism_key_compressed_round_trip_p'], cls='complete', timeout=900,
           functions=['<GGLWE as ReaderFrom>::read_from', '<GGSW as ReaderFrom>::read_from', '<GLWESwitchingKey as ReaderFrom>::read_from', '<GLWEAutomorphismKey as ReaderFrom>::read_from',
-                     '<GLWEPublicKey as ReaderFrom>::read_from', '<GGLWECompressed as ReaderFrom>::read_from (every truncation point of a valid stream: Err leaves base2k/dsize/degrees/p/dist/k unchanged; a seed count above the receiver\'s is rejected for every 20-byte header)']),
+                     '<GLWEPublicKey as ReaderFrom>::read_from', '<GLWEAutomorphismKey / GLWEAutomorphismKeyCompressed as WriterTo + ReaderFrom> (round trip of the signed Galois element: all of i64)', '<GGLWECompressed as ReaderFrom>::read_from (every truncation point of a valid stream: Err leaves base2k/dsize/degrees/p/dist/k unchanged; a seed count above the receiver\'s is rejected for every 20-byte header)']),
         K('poulpy-bin-fhe', 'blind_rotation::lut::verif_kani::c18_brk', ['c18_blind_rotation_key_read_header', 'c18_blind_rotation_key_compressed_read_header'], cls='complete', timeout=900,
           functions=['<BlindRotationKey as ReaderFrom>::read_from', '<BlindRotationKeyCompressed as ReaderFrom>::read_from (16-byte header fully symbolic, every truncation point, receiver without key elements: Err leaves dist unchanged, Ok only for a complete valid header)']),
         K('poulpy-cpu-ref', 'verif_kani::c18_compound', ['c18_gglwe_compressed_read_truncated'], cls='complete', tier='thorough', timeout=1800,
@@ -265,14 +265,15 @@ PROPS['C03'] = dict(
     level='proof',
     technique='Verus contracts on the real text of mod_exp_u64 / galois_element / galois_element_inv with number-theoretic lemmas (g*g^(M-1) == 1 mod 2^k); dependency-flow and radix-discipline contracts on the real text of the key-switching glue (gglwe_product_dft, glwe_keyswitch_internal, glwe_keyswitch, glwe_automorphism, glwe_automorphism_add) over assumed flow contracts of the transform-domain HAL operations',
     level_text='Unbounded proof: mod_exp_u64(x,e) == x^e mod 2^64 for all x,e; galois_element follows the sign convention and equals 5^|k| mod 2N; galois_element_inv(g)*g == 1 mod 2N for every odd g and every power-of-two order <= 2^33. Key-switching glue, for EVERY digit size, digit count, rank, limb count and input/key/output radix admitted by the API: no panic (every set_size within capacity, no underflow in the digit-group limb counts, every inner scratch assertion holds with exactly the advertised bytes), no stale scratch or result bytes reach the output (the accumulator must be cleared: for dsize >= 3 its last limbs are only added to), and every coefficient-domain vector folded into the key-switch accumulator is expressed in the key radix (the re-normalised copy, not the original operand, in the cross-radix branch).',
-    level_note='The glue statements are about which inputs reach the output and in which radix, not about values: that the gadget product decrypts to the expected image within the noise bound needs exact DFT products (C07) and is undecided, as are trace / packing / LWE conversion semantics and the sub / sub_negate / assign variants of the automorphism (same structure, not yet extracted).',
-    units=[V('galois', lemmas=['lemma_odd_pow', 'lemma_galois_inverse']), V('core_keyswitch'), V('core_lwe_ksk'),
+    level_note='Ring packing: each pairwise merge (pack_internal of glwe_pack, combine of the on-the-fly packer) produces, for EVERY presence pattern of its two operands, the one documented formula a/2 + (b/2)X^t + phi(a/2 - (b/2)X^t) over abstract plaintext values (module axioms + the level identity phi(xX^t) = -X^t phi(x) as precondition; GLWE operation values trusted). The glue statements are about which inputs reach the output and in which radix, not about values: that the gadget product decrypts to the expected image within the noise bound needs exact DFT products (C07) and is undecided, as are trace / packing / LWE conversion semantics and the sub / sub_negate / assign variants of the automorphism (same structure, not yet extracted).',
+    units=[V('galois', lemmas=['lemma_odd_pow', 'lemma_galois_inverse']), V('core_keyswitch'), V('core_lwe_ksk'), V('core_trace'), V('core_lwe_to_glwe'),
+           V('core_packing', lemmas=['lemma_merge_both', 'lemma_merge_lo', 'lemma_merge_hi', 'lemma_neg_add']),
            K('poulpy-cpu-ref', 'verif_kani', ['c03_mask_mod_u64'], cls='complete', timeout=300, functions=['leaf fact x & (m-1) == x mod m (u64)'])],
     trusted_base=VERUS_TRUST + CORE_TRUST + ['assumed specifications of i64::unsigned_abs, i64::signum, u64::is_power_of_two',
                   'A-AUT: none needed after fix cfd9678 (glwe_automorphism_tmp_bytes now adds the big-accumulator automorphism / normalisation bytes)',
                   'vrad(v): limb radix of a coefficient-domain vector as an uninterpreted attribute; GLWE operands satisfy vrad(data) == base2k (precondition), glwe_normalize establishes it (restated contract)'],
     assumptions=[],
-    remainder='everything that multiplies polynomials (gadget product value), noise bounds, trace/packing/LWE conversion semantics, the remaining automorphism variants, GGLWE/GGSW key-switch wrappers',
+    remainder='everything that multiplies polynomials (gadget product value), noise bounds, trace / LWE conversion semantics, that the tree of merges yields the packed slots (the single merge is under a value-level contract: core_packing), the remaining automorphism variants, GGLWE/GGSW key-switch wrappers',
 )
 
 BOUNDED_EXPL = 'bounded symbolic execution of the real code under the stated shape bounds (values fully symbolic); not a proof'
@@ -331,7 +332,10 @@ PROPS['C01'] = dict(
     technique='Verus contracts: (i) on the integer statements sliced from the real NoiseInfos::target_limb_and_scale (where and at which scale the fresh error is injected); (ii) a dependency-flow contract on the real text of glwe_decrypt (poulpy-core/src/decryption/glwe.rs) over assumed flow contracts of the transform-domain HAL operations',
     level_text='Unbounded. (i) for every precision k in 1..=2^32 and every radix 1..=64 the error limb is ceil(k/base2k)-1 and the scale exponent is (limb+1)*base2k-k in [0, base2k): the error enters exactly at precision k. (ii) for every rank, limb count and ring degree, every limb of the decrypted plaintext depends on EXACTLY every active limb of every ciphertext column and every secret column: the phase is accumulated at the full ciphertext precision (no low limb is dropped before the final normalisation, which would cost more than the one unit of rounding the property allows), nothing of the scratch arena or of the previous plaintext contents reaches it, limbs beyond the plaintext size are untouched, no panic, and a scratch of exactly glwe_decrypt_tmp_bytes suffices.',
     level_note='(ii) is a statement about which inputs reach the output, not about values: that the accumulated phase equals message + error needs exact DFT products (C07) and is undecided, as are the encryption side, the public-key 1-norm bound, the sampling distribution and the LWE / compressed variants. The f64 exp2 of the exponent is dropped by the slice in (i).',
-    units=[V('core_lwe_encrypt'), V('noise', lemmas=['c01_target_limb_and_exponent']), V('core_decrypt')],
+    units=[V('core_lwe_encrypt'), V('noise', lemmas=['c01_target_limb_and_exponent']), V('core_decrypt'),
+           K('poulpy-cpu-ref', 'verif_kani::c01_tailcut', ['c01_tailcut_fill_dist__n2', 'c01_tailcut_add_dist__n2', 'c01_tailcut_fill_normal__n2', 'c01_tailcut_add_normal__n2'], cls='bounded', timeout=1200,
+             bound='2 coefficients, at most 2 rejected draws in total, tail cut 3.2 (= sigma, the tightest admissible), draws nondeterministic finite f64 in [-1000, 1000] from a scripted source',
+             functions=['znx_fill_dist_f64_ref', 'znx_add_dist_f64_ref', 'znx_fill_normal_f64_ref', 'znx_add_normal_f64_ref (rejection sampling: each coefficient is the rounded FIRST in-bound draw, nothing beyond it is consumed; no error exceeds the bound)'])],
     trusted_base=VERUS_TRUST + CORE_TRUST + ['slice substitution ` as f64).exp2()` => `)`: scale == 2^e is not checked', 'usize::div_ceil assumed specification',
                   'R8 / subst in core_decrypt: `c0_big.data_mut().fill(0)` is read as zeroing every limb of the accumulator; the temporary `pt.to_mut()` is named'],
     assumptions=[],
@@ -371,7 +375,10 @@ PROPS['C10'] = dict(
              functions=['i64_convolution_by_const_1coeff_avx', 'i64_extract_1blk_contiguous_avx', 'i64_save_1blk_contiguous_avx (poulpy-cpu-avx/src/fft64/convolution.rs) vs their reference twins']),
            K('poulpy-cpu-avx', 'verif_kani', ['c10_cnv_const_1coeff__a2_b2', 'c10_cnv_const_1coeff__a3_b1', 'c10_cnv_const_2coeffs__a2_b2', 'c10_cnv_const_2coeffs__a1_b3'], cls='bounded', tier='thorough', timeout=2400,
              bound='(a_size, b_size) in {(2,2), (3,1), (1,3)}, every output limb index, i32 domain (5-17 min per harness)',
-             functions=['i64_convolution_by_const_1coeff_avx', 'i64_convolution_by_real_const_2coeffs_avx vs i64_convolution_by_const_{1coeff,2coeffs}_ref'])],
+             functions=['i64_convolution_by_const_1coeff_avx', 'i64_convolution_by_real_const_2coeffs_avx vs i64_convolution_by_const_{1coeff,2coeffs}_ref']),
+           K('poulpy-cpu-ref', 'verif_kani::c01_tailcut', ['c10_tailcut_ntt120_big_add_normal__n2', 'c01_tailcut_add_normal__n2'], cls='bounded', timeout=1200,
+             bound='2 coefficients, at most 2 rejected draws, tail cut 3.2, error at limb 0 / scale 2^0 (k = base2k = 17); f64::exp2 / log2 replaced by their values at the harness shape',
+             functions=['ntt120_vec_znx_big_add_normal_ref vs znx_add_normal_f64_ref (FFT64 family: vec_znx_add_normal_ref, vec_znx_big_add_normal_ref funnel into it): ONE rejection-sampling spec on a scripted draw sequence, hence the same draws consumed and the same values'])],
     trusted_base=[FMT_STUB, AVX_STUBS + '; plus _mm256_mul_epi32 (signed product of the low 32 bits of each 64-bit lane) and _mm256_set1_epi32'],
     assumptions=['comparison domain: inputs for which the reference kernel does not overflow in the debug profile (|a| <= 2^61 / 2^62)'],
     remainder='znx_automorphism_avx, FFT/IFFT/NTT and mat-vec AVX kernels (FMA, shuffles), FFT64 vs NTT120 families, ciphertext-level bit identity, sampling stream consumption (shared backend-independent code)',
